@@ -787,6 +787,11 @@ def judge_real(c, r):
                 # the value cannot travel back from a worker process: any error will do there, none in threads
                 if c["backend"] in ("threading", "sequential"):
                     bad.append(("C04", "real backend %s: a task returned an unpicklable value, call raised %s%s" % (c["backend"], name, args)))
+            elif tf and jf is None and c.get("exc") == "FalsyFail" and c["backend"] == "loky" and name == "TypeError" \
+                    and "NoneType" in str(args):
+                bad.append(("C04", "real backend loky: the task raised FalsyFail('task failed', %s), an exception whose truth value is "
+                                   "False; the call raised %s%s" % (tf, name, args),
+                            "c04:loky:task-exception-with-false-truth-value:TypeError-NoneType-instead"))
             elif tf and jf is None and c.get("exc") == "Finicky":
                 if name != "Finicky" or args[:1] not in [["%d: task failed" % i] for i in tf]:
                     bad.append(("C04", "real backend %s: the task raised Finicky(%s, 'task failed') (a user exception whose constructor "
@@ -830,6 +835,9 @@ def fixed_real_cases():
             out.append(dict(base, backend=backend, n_jobs=2, exc=exc, with_block=(exc == "UnpicklableRet")))
     for backend, nj in (("threading", 2), ("threading", 3), ("sequential", 1)):
         out.append(dict(base, backend=backend, n_jobs=nj, exc="Finicky"))
+    # an exception object whose truth value is False (known finding F49 on loky)
+    for backend, nj in (("loky", 2), ("threading", 2), ("multiprocessing", 2), ("sequential", 1)):
+        out.append(dict(base, backend=backend, n_jobs=nj, exc="FalsyFail"))
     # functions shipped BY VALUE: same module name, different global namespaces, several per batch, re-used wrappers
     for backend in ("loky", "multiprocessing", "threading"):
         for bsz in (4, 1):
@@ -932,10 +940,12 @@ def real_sampling(ctx, quick, prop, fail_rate):
             if r.get("inconclusive"):
                 inconclusive += 1
                 continue
-            for tag, what in judge_real(c, r):
-                if tag in (prop, "ALL") and n_bad < 2:
-                    n_bad += 1
-                    ctx.violation(what, {"kind": "real-backend", "case": c, "result": r}, True)
+            for item in judge_real(c, r):
+                tag, what = item[0], item[1]
+                key = item[2] if len(item) > 2 else None
+                if tag in (prop, "ALL") and (n_bad < 2 or key):
+                    n_bad += 0 if key else 1
+                    ctx.violation(what, {"kind": "real-backend", "case": c, "result": r}, True, finding_key=key)
     return {"real_backend_runs": len(cases), "real_backend_distribution": dist, "real_backend_inconclusive": inconclusive}
 
 
